@@ -148,6 +148,95 @@ def closure_captures(parent, closure):
     return out
 
 
+class ClosureCells:
+    """Boolean-like cells of a function that a closure it creates sets and the function tests afterwards: a captured
+    `bool` (or `Option<_>`) local, or such a field of a captured struct local. A cell is identified by
+    (local of the creating function, field names), whichever way either side reaches it (directly, through the
+    reference parameter of a helper that was inlined, through the closure environment)."""
+
+    def __init__(self, parent, closure):
+        self.parent, self.closure = parent, closure
+        self.caps = {n: loc for n, (loc, aps, _) in closure_captures(parent, closure).items() if loc is not None}
+
+    def of_closure_place(self, pl):
+        org = T.place_origin(self.closure, pl)
+        if org is None:
+            return None
+        base, flds = org
+        flds = [x for x in flds if x != "*"]
+        if base != 1 or not flds or flds[0] not in self.caps:
+            return None
+        # the captured variable, normalised like every place of the creating function (a variable initialised by a
+        # plain move of a temporary designates that temporary)
+        o2 = T.place_origin(self.parent, {"l": self.caps[flds[0]], "p": [], "t": 0})
+        base2, f2 = o2 if o2 is not None else (self.caps[flds[0]], ())
+        return (base2, tuple(x for x in f2 if x != "*") + tuple(flds[1:]))
+
+    def of_parent_place(self, x):
+        org = T.place_origin(self.parent, x)
+        if org is None:
+            return None
+        base, flds = org
+        return (base, tuple(x_ for x_ in flds if x_ != "*"))
+
+    @staticmethod
+    def _is_set_value(body, rv):
+        """True for `true` and for `Some(..)`"""
+        if rv["r"] == "use":
+            k = rv["o"].get("k")
+            if k is not None:
+                return k.get("v") == 1
+            return any(v[1] == "Some" for v in T.agg_variant(body, rv["o"]))
+        if rv["r"] == "agg":
+            return rv.get("variant") == "Some"
+        return False
+
+    def set_stores(self):
+        """[(bb, cell)]: statements of the closure that put `true` / `Some(..)` into a cell"""
+        out = []
+        cl = self.closure
+        for i, j, st in cl.statements():
+            if st["s"] != "assign" or cl.is_cleanup(i) or not self._is_set_value(cl, st["rv"]):
+                continue
+            c = self.of_closure_place(st["pl"])
+            if c is not None:
+                out.append((i, c))
+        return out
+
+    def cells(self):
+        return sorted({c for _, c in self.set_stores()})
+
+    def set_edges(self, cell):
+        """edges of the creating function taken when the cell is set (true / Some), and when it is not"""
+        b = self.parent
+        yes, no = [], []
+        for sw, blk in enumerate(b.blocks):
+            t = blk["term"]
+            if t["t"] != "switch" or b.is_cleanup(sw):
+                continue
+            kind, _ = T.switch_reads(b, sw)
+            e = b.expr(t["on"])
+            neg = False
+            while e[0] == "not":
+                neg = not neg
+                e = e[1]
+            if e[0] not in ("place", "discr"):
+                continue
+            if self.of_parent_place(e[2]) != cell:
+                continue
+            zero = [(sw, tgt) for v, tgt in t["targets"] if v == 0]
+            nonzero = [(sw, tgt) for v, tgt in t["targets"] if v != 0]
+            if zero:
+                nonzero = nonzero + [(sw, t["otherwise"])]
+            else:
+                zero = [(sw, t["otherwise"])]
+            if neg:
+                zero, nonzero = nonzero, zero
+            yes += nonzero
+            no += zero
+        return yes, no
+
+
 def lower_bound(body, op, depth=0):
     """a sound lower bound (unsigned) of an integer operand, following saturating_add / min /
     constants; unknown values have lower bound 0"""
